@@ -10,6 +10,7 @@ import (
 	"regexp"
 	"sort"
 	"strings"
+	"sync/atomic"
 	"time"
 
 	"verif/internal/chk"
@@ -43,7 +44,7 @@ var (
 	htmlCmd   = regexp.MustCompile(`(?s)<div class="cmdbox">(.*?)</div>`)
 	htmlPar   = regexp.MustCompile(`<tr><th>Parameters:</th><td>(.*?)</td></tr>`)
 	htmlTag   = regexp.MustCompile(`(?s)<tr><th>Tags:</th><td><pre>(.*?)</pre></td></tr>`)
-	texBox    = regexp.MustCompile(`(?s)\\begin\{tcolorbox\}\[ title=(.*?)\\end\{tcolorbox\}`)
+	texBox    = regexp.MustCompile(`(?s)\\begin\{tcolorbox\}\[(.*?)\\end\{tcolorbox\}`)
 	texID     = regexp.MustCompile(`ID: & (.*?) \\\\`)
 	texProc   = regexp.MustCompile(`Process: & (.*?) \\\\`)
 	texCmd    = regexp.MustCompile(`(?s)\\begin\{lstlisting\}\n(.*?)\n\\end\{lstlisting\}`)
@@ -78,7 +79,7 @@ func parseHTML(s string) []listed {
 func parseTeX(s string) []listed {
 	var out []listed
 	for _, m := range texBox.FindAllStringSubmatch(s, -1) {
-		if strings.HasPrefix(m[1], "Summary information") {
+		if head := m[1]; strings.Contains(head[:imin(len(head), 120)], "Summary information") {
 			continue
 		}
 		l := listed{}
@@ -110,6 +111,100 @@ func parseBash(s string) []listed {
 	return out
 }
 
+var texUnescaper = strings.NewReplacer(`\textbackslash{}`, `\`, `\textasciitilde{}`, "~", `\textasciicircum{}`, "^", `\_`, "_", `\&`, "&", `\%`, "%", `\$`, "$", `\#`, "#", `\{`, "{", `\}`, "}")
+
+func texUnescape(s string) string { return texUnescaper.Replace(s) }
+
+// structureBlind counts reports whose layout the parsers above did not recognise and that were judged by the
+// layout-free rules below instead (evidence: structure_free_judgements).
+var structureBlind int64
+
+// bashByLines finds the tasks a script runs without relying on the lines around them: a task's command (with "../"
+// removed, as the converter documents) stands on lines of its own. Returns the commands in script order.
+func bashByLines(script string, tasks map[string]*mon.AuditJSON) []listed {
+	type hit struct {
+		pos int
+		cmd string
+	}
+	var hits []hit
+	seen := map[string]bool{}
+	for _, a := range tasks {
+		cmd := strings.ReplaceAll(a.Command, "../", "")
+		if seen[cmd] || strings.TrimSpace(cmd) == "" {
+			continue
+		}
+		seen[cmd] = true
+		re, err := regexp.Compile(`(?m)^[ \t]*` + regexp.QuoteMeta(cmd) + `[ \t]*$`)
+		if err != nil {
+			continue
+		}
+		for _, loc := range re.FindAllStringIndex(script, -1) {
+			hits = append(hits, hit{loc[0], cmd})
+		}
+	}
+	sort.Slice(hits, func(i, j int) bool { return hits[i].pos < hits[j].pos })
+	var out []listed
+	for _, h := range hits {
+		out = append(out, listed{Proc: "\x00any", Cmd: h.cmd})
+	}
+	return out
+}
+
+// listedByID is the layout-free reading of an HTML / TeX report: where each task's id first occurs.
+func listedByID(report string, tasks map[string]*mon.AuditJSON) (order []*mon.AuditJSON, missing []string) {
+	type hit struct {
+		pos int
+		a   *mon.AuditJSON
+	}
+	var hits []hit
+	for id, a := range tasks {
+		k := strings.Index(report, id)
+		if k < 0 {
+			missing = append(missing, id)
+			continue
+		}
+		hits = append(hits, hit{k, a})
+	}
+	sort.Slice(hits, func(i, j int) bool { return hits[i].pos < hits[j].pos })
+	for _, h := range hits {
+		order = append(order, h.a)
+	}
+	sort.Strings(missing)
+	return
+}
+
+// reportProblemsRaw judges a report; when the layout-specific parser recognises no entry at all in a non-empty report
+// (a converter that lays its report out differently), it falls back to what can be read without knowing the layout:
+// every task is there (its id for HTML / TeX, its command on lines of its own for Bash) and the order of appearance
+// follows the start times.
+func reportProblemsRaw(format, raw string, ls []listed, tasks map[string]*mon.AuditJSON) []mon.Problem {
+	n := 0
+	for _, l := range ls {
+		if l.Proc != "" {
+			n++
+		}
+	}
+	if n > 0 || len(tasks) == 0 || strings.TrimSpace(raw) == "" {
+		return reportProblems(format, ls, tasks)
+	}
+	atomic.AddInt64(&structureBlind, 1)
+	if format == "bash" {
+		return reportProblems(format, bashByLines(raw, tasks), tasks)
+	}
+	var ps []mon.Problem
+	order, missing := listedByID(raw, tasks)
+	for _, id := range missing {
+		ps = append(ps, mon.Problem{Sig: format + "-task-missing", Msg: fmt.Sprintf("%s does not mention task %s (%s) anywhere", format, id, tasks[id].ProcessName)})
+	}
+	for i := 1; i < len(order); i++ {
+		if order[i].StartTime.Before(order[i-1].StartTime) {
+			ps = append(ps, mon.Problem{Sig: format + "-not-ordered-by-start-time", Msg: fmt.Sprintf("%s mentions %s (start %s) after %s (start %s)", format, order[i].ProcessName, order[i].StartTime.Format(time.RFC3339Nano), order[i-1].ProcessName, order[i-1].StartTime.Format(time.RFC3339Nano))})
+			break
+		}
+	}
+	return ps
+}
+
 // reportProblems judges one converted report against the record it was made from.
 func reportProblems(format string, ls []listed, tasks map[string]*mon.AuditJSON) []mon.Problem {
 	var ps []mon.Problem
@@ -135,6 +230,14 @@ func reportProblems(format string, ls []listed, tasks map[string]*mon.AuditJSON)
 			wantProc, wantCmd := a.ProcessName, a.Command
 			if format == "tex" {
 				wantProc, wantCmd = tex(wantProc), tex(wantCmd)
+				// (how much of TeX's special characters the report escapes is its own business: a field that reads right
+				// after un-escaping is right)
+				if texUnescape(l.Proc) == a.ProcessName {
+					wantProc = l.Proc
+				}
+				if texUnescape(l.Cmd) == a.Command {
+					wantCmd = l.Cmd
+				}
 			}
 			if l.Proc != wantProc || l.Cmd != wantCmd {
 				ps = append(ps, mon.Problem{Sig: format + "-task-fields", Msg: fmt.Sprintf("%s entry %s shows process %q command %q, record has %q / %q", format, l.ID, l.Proc, l.Cmd, wantProc, wantCmd)})
@@ -144,7 +247,7 @@ func reportProblems(format string, ls []listed, tasks map[string]*mon.AuditJSON)
 				if format == "tex" {
 					p = k + "=" + v
 				}
-				if !strings.Contains(l.Params, p) {
+				if !strings.Contains(l.Params, p) && !(format == "tex" && strings.Contains(texUnescape(l.Params), p)) {
 					ps = append(ps, mon.Problem{Sig: format + "-task-params", Msg: fmt.Sprintf("%s entry %s (%s): parameters %q lack %q", format, l.ID, l.Proc, l.Params, p)})
 				}
 			}
@@ -153,7 +256,7 @@ func reportProblems(format string, ls []listed, tasks map[string]*mon.AuditJSON)
 				if format == "tex" {
 					p = k + "=" + v
 				}
-				if !strings.Contains(l.Tags, p) {
+				if !strings.Contains(l.Tags, p) && !(format == "tex" && strings.Contains(texUnescape(l.Tags), p)) {
 					ps = append(ps, mon.Problem{Sig: format + "-task-tags", Msg: fmt.Sprintf("%s entry %s (%s): tags %q lack %q", format, l.ID, l.Proc, l.Tags, p)})
 				}
 			}
@@ -178,6 +281,18 @@ func reportProblems(format string, ls []listed, tasks map[string]*mon.AuditJSON)
 		}
 		for _, l := range real {
 			k := l.Proc + "\x00" + l.Cmd
+			if l.Proc == "\x00any" {
+				// (layout-free reading: the process name is not known; the earliest remaining task with that command)
+				var best string
+				for pk, rest := range pool {
+					if len(rest) > 0 && strings.HasSuffix(pk, "\x00"+l.Cmd) && (best == "" || rest[0].StartTime.Before(pool[best][0].StartTime)) {
+						best = pk
+					}
+				}
+				if best != "" {
+					k = best
+				}
+			}
 			if len(pool[k]) == 0 {
 				ps = append(ps, mon.Problem{Sig: "bash-task-duplicated-or-unknown", Msg: fmt.Sprintf("script runs process %q command %q more often than the lineage has such tasks", l.Proc, l.Cmd)})
 				continue
@@ -432,7 +547,7 @@ func c20(args []string) {
 	if err != nil {
 		c.Broken(err.Error())
 	}
-	c.Rule("(a) audit files of real runs of flat-path workflows built from plain shell commands (cat, tr, sed, rev, sort, wc, printf / awk with percent signs, multi-line commands with significant blanks, parameters used in the output name only; chains of depth 1-5, diamonds with a shared ancestor - also one whose branches start at the two outputs of one task -, sub-stream joins, parameters; also produced by resumed runs: RunTo a prefix, then Run; every third with the OutFiles fields removed, as an older library version wrote its records) and (b) audit trees generated directly (two records of different executions for one file path in a tree, as resumed runs leave them; 1-60 records, DAG-shaped sharing, equal / whole-second / zero start times, parameters and tags with underscores, source-file pseudo records) are converted with the CLI built from /repo/cmd/scipipe (audit2html, audit2tex, audit2bash; in every second case a longer stale report of the same name already exists); the outputs are parsed back and compared with the record flattened by id: every task (non-empty process name) listed exactly once, in non-decreasing start-time order, with its command, parameters and tags as the format prints them; for (a) the generated Bash script is executed in a directory holding only the source files and must re-create the file byte-identically. distinct_nontrivial = distinct audit trees with >= 2 tasks whose three conversions were all compared")
+	c.Rule("(the parsers use the layout of each report; the TeX fields are compared after un-escaping as well; a non-empty report in which the layout parser recognises no entry at all is judged layout-free instead - every task id / every command on lines of its own present, order of appearance by start time - and counted as structure_free_judgements) (a) audit files of real runs of flat-path workflows built from plain shell commands (cat, tr, sed, rev, sort, wc, printf / awk with percent signs, multi-line commands with significant blanks, parameters used in the output name only; chains of depth 1-5, diamonds with a shared ancestor - also one whose branches start at the two outputs of one task -, sub-stream joins, parameters; also produced by resumed runs: RunTo a prefix, then Run; every third with the OutFiles fields removed, as an older library version wrote its records) and (b) audit trees generated directly (two records of different executions for one file path in a tree, as resumed runs leave them; 1-60 records, DAG-shaped sharing, equal / whole-second / zero start times, parameters and tags with underscores, source-file pseudo records) are converted with the CLI built from /repo/cmd/scipipe (audit2html, audit2tex, audit2bash; in every second case a longer stale report of the same name already exists); the outputs are parsed back and compared with the record flattened by id: every task (non-empty process name) listed exactly once, in non-decreasing start-time order, with its command, parameters and tags as the format prints them; for (a) the generated Bash script is executed in a directory holding only the source files and must re-create the file byte-identically. distinct_nontrivial = distinct audit trees with >= 2 tasks whose three conversions were all compared")
 	c.Assume("source-file pseudo records (empty process name) are not tasks and are not judged", "TeX: '_' is printed as '\\_' and parameters as k=v; Bash: '../' is removed from commands by the template")
 	rng := c.Rand("c20")
 	type job struct {
@@ -578,9 +693,9 @@ func c20(args []string) {
 				}
 			}
 		}
-		ps = append(ps, reportProblems("html", parseHTML(outs["html"]), tasks)...)
-		ps = append(ps, reportProblems("tex", parseTeX(outs["tex"]), tasks)...)
-		ps = append(ps, reportProblems("bash", parseBash(outs["sh"]), tasks)...)
+		ps = append(ps, reportProblemsRaw("html", outs["html"], parseHTML(outs["html"]), tasks)...)
+		ps = append(ps, reportProblemsRaw("tex", outs["tex"], parseTeX(outs["tex"]), tasks)...)
+		ps = append(ps, reportProblemsRaw("bash", outs["sh"], parseBash(outs["sh"]), tasks)...)
 		equalStarts := false
 		seenT := map[int64]bool{}
 		for _, t := range tasks {
@@ -632,6 +747,7 @@ func c20(args []string) {
 			c.Sample(map[string]interface{}{"kind": j.kind, "tasks": len(tasks), "depth": a.Depth(), "equal_start_times": equalStarts, "html_entries": len(parseHTML(outs["html"])), "tex_entries": len(parseTeX(outs["tex"])), "bash_entries": len(parseBash(outs["sh"]))})
 		}
 	})
+	c.Set("structure_free_judgements", atomic.LoadInt64(&structureBlind))
 	c.Finish()
 }
 
